@@ -55,6 +55,20 @@ def canon_pred(p, depth=0):
     return p
 
 
+OPTION_TO_ERR = re.compile(r'(for std::option::Option<T>>::(with_context|context)|Option::<T>::ok_or(_else)?)$')
+
+
+def none_form(p):
+    """`x.context(..)?` / `x.ok_or_else(..)?` on an Option fails exactly when x is None: the same guard as
+    `let Some(..) = x else { bail!(..) }`"""
+    if p[0] != 'fails':
+        return p
+    e, n = strip(p[1]), 0
+    while e[0] == 'call' and e[2] and OPTION_TO_ERR.search(e[1]):
+        e, n = strip(e[2][0]), n + 1
+    return ('is_none', e) if n else p
+
+
 def norm_pred(cond, label):
     """predicate that is true exactly when the edge `label` of a switch on `cond` is taken"""
     if cond[0] == 'discr':
@@ -94,7 +108,7 @@ class Guard:
         self.kind = kind          # 'reject' | 'defer'
         self.kinds = kinds
         self.span = span
-        self.pred = norm_pred(cond, label)
+        self.pred = none_form(norm_pred(cond, label))
         self.others = others      # [(label, tgt)] of the sibling edges
 
     def where(self):
